@@ -196,34 +196,56 @@ void SampledDimension::samplingInterval(double interval) {
 }
 
 
+// Index of the sample matching position according to match. The axis is
+// x_i = i * sampling_interval + offset (the same expression positionAt uses);
+// all comparisons are made against these coordinates, not against the quotient.
 boost::optional<ndsize_t> getSampledIndex(const double position, const double offset, const double sampling_interval, const PositionMatch match) {
     boost::optional<ndsize_t> index;
-    if (position < offset && (match != PositionMatch::Greater && match != PositionMatch::GreaterOrEqual)) {
+    auto coord = [&](double i) { return i * sampling_interval + offset; };
+    if (!(position == position)) { // NaN matches nothing
         return index;
     }
-    double tmp;
-    if (match == PositionMatch::Greater || match == PositionMatch::GreaterOrEqual) {
-        tmp = ceil((position - offset) / sampling_interval);
-        if (tmp < 0.0) {
-            tmp = 0.0;
+    const bool below = position < coord(0.0);
+    if (below) {
+        if (match == PositionMatch::Greater || match == PositionMatch::GreaterOrEqual) {
+            index = 0;
         }
-        bool equals = fabs(tmp * sampling_interval + offset - position) <= numeric_limits<double>::epsilon();
-        index = (match == PositionMatch::Greater && equals) ? static_cast<ndsize_t>(tmp + 1) : static_cast<ndsize_t>(tmp);
-    } else if (match == PositionMatch::Less || match == PositionMatch::LessOrEqual) {
-        tmp = floor((position - offset) / sampling_interval);
-        bool equals = fabs(tmp * sampling_interval + offset - position) <= numeric_limits<double>::epsilon();
-        if (match == PositionMatch::Less && equals) { 
-            if (tmp >= 1) {
-                index = static_cast<ndsize_t>(tmp - 1);
-            } 
-        } else {
-            index = static_cast<ndsize_t>(tmp);
+        return index;
+    }
+    // largest i with x_i <= position: start from the quotient, then correct rounding
+    double i = floor((position - offset) / sampling_interval);
+    if (i < 0.0) {
+        i = 0.0;
+    }
+    for (int k = 0; k < 4 && i > 0.0 && coord(i) > position; ++k) {
+        i -= 1.0;
+    }
+    for (int k = 0; k < 4 && coord(i + 1.0) <= position && (i + 1.0) != i; ++k) {
+        i += 1.0;
+    }
+    const bool equals = coord(i) == position;
+    switch (match) {
+    case PositionMatch::LessOrEqual:
+        index = static_cast<ndsize_t>(i);
+        break;
+    case PositionMatch::Less:
+        if (!equals) {
+            index = static_cast<ndsize_t>(i);
+        } else if (i >= 1.0) {
+            index = static_cast<ndsize_t>(i - 1.0);
         }
-    } else {
-        tmp = round((position - offset) / sampling_interval);
-        if (fabs(tmp * sampling_interval + offset - position) <= numeric_limits<double>::epsilon()) {
-            index = static_cast<ndsize_t>(tmp);
+        break;
+    case PositionMatch::Equal:
+        if (equals) {
+            index = static_cast<ndsize_t>(i);
         }
+        break;
+    case PositionMatch::GreaterOrEqual:
+        index = equals ? static_cast<ndsize_t>(i) : static_cast<ndsize_t>(i + 1.0);
+        break;
+    case PositionMatch::Greater:
+        index = static_cast<ndsize_t>(i + 1.0);
+        break;
     }
     return index;
 }
